@@ -120,7 +120,8 @@ fn random_scenario(seed: u64, run: u64) -> (Scenario, Vec<Abs>) {
     let shared = abs.iter().filter(|a| a.route == "a").count() > 1;
     if !shared { for a in abs.iter_mut() { if a.fault == "connstall" { a.fault = "stall".into(); } } }
     let nbk = if n == 1 && reqs[0].route == "a" && rng.random_bool(0.15) { 2 } else { 1 };
-    let scn = Scenario { id: run, front: front.into(), back: back.into(), mode: mode.into(), nbk, gap_ms: if mode == "mux" { [0u64, 0, 1, 2, 5][rng.random_range(0..5)] } else { 0 }, reqs };
+    let timing = if rng.random_bool(0.3) { "ff" } else { "bf" };
+    let scn = Scenario { id: run, front: front.into(), back: back.into(), mode: mode.into(), nbk, timing: timing.into(), gap_ms: if mode == "mux" { [0u64, 0, 1, 2, 5][rng.random_range(0..5)] } else { 0 }, reqs };
     (scn, abs)
 }
 
@@ -217,7 +218,7 @@ fn main() {
                 }
             }
             let sig: Vec<String> = abs.iter().zip(obs.iter()).map(|(a, o)| { let (s, h) = o.outcome(); format!("{}/{}/{}@{}/{}={}/{}", a.route, a.framing, a.fault, a.at, a.pace, s, h) }).collect();
-            let sig = format!("{}:{}:{}", pair, scn.mode, sig.join("+"));
+            let sig = format!("{}:{}:{}:{}", pair, scn.mode, scn.timing, sig.join("+"));
             let mut st = stats.lock().unwrap();
             if slow {
                 // the harness was too slow to keep its own script: the run says nothing
@@ -231,7 +232,7 @@ fn main() {
                                  "obs": obs.iter().map(|o| o.to_json()).collect::<Vec<_>>(), "events": events}));
             }
             drop(st);
-            let rec = json!({"run": run, "front": scn.front, "back": scn.back, "mode": scn.mode, "nbk": scn.nbk, "sig": sig,
+            let rec = json!({"run": run, "front": scn.front, "back": scn.back, "mode": scn.mode, "nbk": scn.nbk, "timing": scn.timing, "sig": sig,
                 "reqs": abs.iter().map(|a| json!({"route": a.route, "framing": a.framing, "fault": a.fault, "at": a.at, "pace": a.pace})).collect::<Vec<_>>(),
                 "script": scn.to_json().to_string(),
                 "obs": project(run, &obs, &events)});
